@@ -17,17 +17,25 @@
 (***************************************************************************)
 EXTENDS Integers, Sequences, FiniteSets
 
-CONSTANT Seeds      \* sequence of [id, dec, len, mlen, ntab, ngid]
+CONSTANT Seeds      \* sequence of [id, dec, len, mlen, ntab, ngid, ndict]
 
 Decoders == {"sfnt", "header", "cff", "cmap", "glyf", "GSUB", "GPOS", "GDEF", "coverage", "coverset",
              "classdef", "name", "head", "hmtx", "maxp", "os2", "post", "kern"}
 
 \* ------------------------------------------------------------------ the fault plan
-Kinds == <<"orig", "trunc", "word", "flip", "ff", "inc", "dec", "pair", "drop">>
+Kinds == <<"orig", "trunc", "word", "flip", "ff", "inc", "dec", "pair", "dict", "drop">>
 KindSet == {Kinds[i] : i \in DOMAIN Kinds}
 NumValues == 10
 NumGidValues == 3
 NumTriggers == 3
+NumDictValues == 6
+\* the replacement values of kind "dict" as signed 32-bit integers (hi word, lo word omitted: TLC integers
+\* are 32-bit, so the values are written as differences from 2^31 - 1 = 2147483647)
+DictValue(v, partner) ==
+  CASE v = 0 -> 2147483647 [] v = 1 -> 2147483647 - 15 [] v = 2 -> -2147483647 - 1 [] v = 3 -> -1
+    [] v = 4 -> 2147483647 - partner                  \* operand + partner = 2^31 - 1: the largest sum without wrap
+    [] v = 5 -> IF partner > 0 THEN (2147483647 - partner) + 1 ELSE -2147483647 - 1
+                                                      \* operand + partner = 2^31: wraps to -2^31 in int32
 \* the replacement values of kind "word": 0, 1, 2, 0x7FFF, 0x8000, 0xFFFE, 0xFFFF, len-1, len, len+1
 WordValue(v, len) ==
   CASE v = 1 -> 0 [] v = 2 -> 1 [] v = 3 -> 2 [] v = 4 -> 32767 [] v = 5 -> 32768 [] v = 6 -> 65534
@@ -45,12 +53,18 @@ WordValue(v, len) ==
 \*          composite components, GSUB/GPOS coverage glyphs) set to numGlyphs, numGlyphs+1, 0xFFFF
 \*          (NumGidValues), combined with each trigger that switches the reader's fall-backs on
 \*          (NumTriggers: none; OS/2 xHeight and capHeight zeroed; OS/2 table removed)
+\*   dict   CFF seeds, 32-bit arithmetic of DICT operands: each of the ndict offset- or size-bearing operands
+\*          stored as a 5-byte int32 (charset, Encoding, CharStrings, Private size and offset, Subrs, FDArray,
+\*          FDSelect, in the Top DICT, every Font DICT and every Private DICT) replaced by each of NumDictValues
+\*          values: 0x7FFFFFFF, 0x7FFFFFF0, -2^31, -1, and the two values that make operand + partner
+\*          (size + offset, Subrs + offset of its Private DICT) equal to 2^31-1 and to 2^31
 \*   drop   whole fonts: every table removed from the directory in turn
 Planned(s, kind) ==
   CASE kind = "orig" -> 1
     [] kind \in {"trunc", "flip", "ff", "inc", "dec"} -> s.mlen
     [] kind = "word" -> s.mlen \div 2
     [] kind = "pair" -> s.ngid * NumGidValues * NumTriggers
+    [] kind = "dict" -> s.ndict * NumDictValues
     [] kind = "drop" -> s.ntab
 
 Cell(s, kind, v) == [seed |-> s.id, kind |-> kind, v |-> v, n |-> Planned(s, kind)]
@@ -58,7 +72,7 @@ CellsOf(s) ==
   LET all == <<Cell(s, "orig", 0), Cell(s, "trunc", 0)>>
              \o [v \in 1..NumValues |-> Cell(s, "word", v)]
              \o <<Cell(s, "flip", 0), Cell(s, "ff", 0), Cell(s, "inc", 0), Cell(s, "dec", 0), Cell(s, "pair", 0),
-                 Cell(s, "drop", 0)>>
+                 Cell(s, "dict", 0), Cell(s, "drop", 0)>>
   IN SelectSeq(all, LAMBDA c : c.n > 0)
 
 RECURSIVE PlanFrom(_)
@@ -70,6 +84,7 @@ SeedsOK ==
        /\ Seeds[i].id = i /\ Seeds[i].dec \in Decoders
        /\ Seeds[i].len > 0 /\ Seeds[i].mlen > 0 /\ Seeds[i].mlen <= Seeds[i].len /\ Seeds[i].ntab >= 0 /\ Seeds[i].ngid >= 0
        /\ (Seeds[i].dec # "sfnt" => Seeds[i].ntab = 0 /\ Seeds[i].ngid = 0)
+       /\ Seeds[i].ndict >= 0 /\ (Seeds[i].dec # "cff" => Seeds[i].ndict = 0)
   /\ \A d \in Decoders : \E i \in DOMAIN Seeds : Seeds[i].dec = d       \* every decoder of the property has a seed
 
 \* ------------------------------------------------------------------ the contract
